@@ -2626,11 +2626,10 @@ func (r *Runtime) Try(f func()) *Exception {
 	return r.vm.try(f)
 }
 
+// try runs f and returns whatever stops it as an error: a JS exception, and also an interrupt or a
+// stack overflow, which must not leave an API that reports errors as a Go panic.
 func (r *Runtime) try(f func()) error {
-	if ex := r.vm.try(f); ex != nil {
-		return ex
-	}
-	return nil
+	return r.runWrapped(f)
 }
 
 func (r *Runtime) toObject(v Value, args ...interface{}) *Object {
